@@ -32,6 +32,13 @@ BADCOMPILE = ['return 5', 'yield 5', 'break']
 def shape_doctest(rng, dt, kind):
     steps = dt['steps']
     base = max(st['i'] for st in steps) + 1
+    if kind == 'all_skipped' and rng.random() < 0.2:
+        # nothing runs, and several of the parts that do not run read the same
+        dt['steps'] = [{'i': j, 'form': 'const', 'pts': [], 'ps2': False, 'sep': 'none' if j == 0 else 'blank'}
+                       for j in range(rng.randint(2, 4))]
+        dt['steps'].insert(0, {'i': 9, 'form': 'directive', 'pts': [], 'ps2': False, 'sep': 'none',
+                               'dirs': [['+', 'SKIP', None]]})
+        return
     if kind == 'all_skipped':
         d = rng.choice([[['+', 'SKIP', None]], [['+', 'REQUIRES', 'env:SIM_NOT_SET']], [['+', 'REQUIRES', '--sim-absent-flag']]])
         steps.insert(0, {'i': base, 'form': 'directive', 'pts': [], 'ps2': False, 'sep': 'none', 'dirs': d})
@@ -142,6 +149,9 @@ def generate(rng, tier):
                         'analysis': rng.choice(['auto', 'auto', 'static', 'dynamic'])})
             if rng.random() < 0.25:
                 ops[-1]['config'] = {'default_runtime_state': rng.choice([{'ELLIPSIS': True}, {'SKIP': False}])}
+            if rng.random() < 0.2:
+                # the host program has a command line of its own; what was asked for explicitly counts
+                ops[-1]['argv_from_process'] = True
     # plan: turn some passing executions into failures
     plan = []
     if many:
@@ -161,6 +171,14 @@ def generate(rng, tier):
                              'exc': rng.choice(['ValueError', 'KeyError', 'SimError', 'AssertionError']), 'msg': 'fault ' + p['pid']})
     if rng.random() < 0.3:
         plan.append({'clock_jump': rng.randint(0, 12), 'delta': rng.choice([1e6, -1e6, 3600.0, -0.5])})
+    if rng.random() < 0.06 and execs and not many:
+        # Ctrl-C while one of the doctests runs: whatever the runner then reports, it must
+        # not count doctests that were never run
+        dtid, k, opidx = rng.choice(execs)
+        pts = common.points_of(world, dtid)
+        if pts:
+            plan = [f for f in plan if not (f.get('dt') == dtid and f.get('k') == k)]
+            plan.append({'dt': dtid, 'k': k, 'pid': rng.choice(pts)['pid'], 'kind': 'interrupt', 'exc': 'KeyboardInterrupt'})
     if rng.random() < 0.35:
         # code under test that emits warnings (recorded by the run, listed by the
         # runner) -- in doctests that pass, fail or are partly skipped alike
@@ -172,8 +190,10 @@ def generate(rng, tier):
                     plan.append({'dt': dtid, 'k': k, 'pid': pts[0]['pid'], 'kind': 'warn'})
         if rng.random() < 0.5:
             plan.append({'import': rng.choice(world['modules'])['name'], 'kind': 'warn'})
-    return {'profile': ID, 'world': world, 'ops': ops, 'plan': plan, 'kinds': kinds,
-            'env': {'listing_seed': rng.randint(0, 9999)}}
+    env = {'listing_seed': rng.randint(0, 9999)}
+    if any(o.get('argv_from_process') for o in ops):
+        env['argv'] = ['xdsim', rng.choice(['nightly', 'list', 'all', 'f0', 'f1:0', 'K0'])]
+    return {'profile': ID, 'world': world, 'ops': ops, 'plan': plan, 'kinds': kinds, 'env': env}
 
 
 N_SWEEPS_THOROUGH = 300
@@ -260,6 +280,18 @@ def check(rec):
             continue
         under = _under(world, target)
         execs = [e for e in rec['execs'] if e['op'] == o['op']]
+        if any(e['how'] == 'raised' and e['exc'] == 'KeyboardInterrupt' for e in execs):
+            # the property does not say what "number run" is after an interrupt; what it does
+            # say is that the tallies are about doctests that ran
+            val = o['value'] or {}
+            if op['op'] == 'runner' and 'n_total' in val:
+                done = [e for e in execs if e['how'] == 'returned']
+                counted = val.get('n_passed', 0) + val.get('n_failed', 0) + val.get('n_skipped', 0)
+                if counted > len(execs) or val.get('n_skipped', 0) > sum(1 for e in done if expect.classify(e)[0] == 'skipped') \
+                        or val.get('n_passed', 0) > sum(1 for e in done if expect.classify(e)[0] == 'passed'):
+                    out.append(common.viol('C10.R2', '%s interrupted after %d doctest(s) started, %d finished; reported passed %s failed %s skipped %s' % (
+                        lab, len(execs), len(done), val.get('n_passed'), val.get('n_failed'), val.get('n_skipped')), op=o['op']))
+            continue
         ran = sorted(e['dtid'] for e in execs)
         if cmd == 'list':
             if execs:
